@@ -201,6 +201,9 @@ const nsTLS = "urn:ietf:params:xml:ns:xmpp-tls"
 
 func runC01(rc *RC) {
 	ch := rc.Ch
+	if d := rc.S.ConfigureDense(); d != "" {
+		rc.Describe("%s", d)
+	}
 	class := ch.Int("workload", 3) // 0 real initiator + real receiver, 1 initiator vs scripted receiver, 2 receiver vs scripted initiator
 	ws := ch.Chance("workload", 1, 4)
 	init0 := []xmpp.SessionState{0, xmpp.Secure, xmpp.Secure | xmpp.Authn}[ch.Int("workload", 3)]
